@@ -3,6 +3,11 @@ import json, subprocess, sys, tempfile, os, xml.etree.ElementTree as ET
 d = sys.argv[1]
 out = tempfile.mktemp(suffix=".xml")
 env = dict(os.environ); env.pop("PIPEFUNC_VERIF", None); env["PYTHONPATH"] = d
+# the suite leaves one run folder per map() call in the temp directory: give it a private one and remove it afterwards
+import atexit, shutil
+_tmp = tempfile.mkdtemp(prefix="baseline-", dir="/dev/shm" if os.path.isdir("/dev/shm") else None)
+env["TMPDIR"] = _tmp
+atexit.register(shutil.rmtree, _tmp, True)
 subprocess.run(f"cd {d} && /venv/bin/python -m pytest -q -p no:cacheprovider --timeout=900 --continue-on-collection-errors --no-cov --junitxml={out}",
                shell=True, capture_output=True, env=env)
 b = json.load(open("/root/.vp/BASELINE.json"))
